@@ -226,6 +226,15 @@ func runC10(p *eng.Prog, r *eng.Report, tier string) {
 		serveCtxReread(c, "C10.4", sv)
 		serveCtxRootedInBackground(c, "C10.13")
 		handlerWriterKeepsTheLock(c, "C10.14")
+		sendErrorOnlyFromServe(c, "C10.17")
+		// C10.16 a cancelled negotiation leaves no expired deadline on the
+		// connection (Close would fail to write the closing tag): the watcher
+		// clears what it set, both directions (= C04.4)
+		c04DeadlineAs(c, "C10.16")
+		// C10.15 "Serve keeps reading after a local Close": the only error of the
+		// automatic reply that is tolerated is ErrOutputStreamClosed, and nobody
+		// but the reply detector decides that a request was answered
+		replyFlagOnlyByDetector(c, "C10.15")
 		okDefer := false
 		for _, d := range g.Defers {
 			lit, ok := ast.Unparen(d.Call.Fun).(*ast.FuncLit)
@@ -505,6 +514,26 @@ func closerTypestate(c *cx, id string) {
 			}
 		}
 		c.r.Floor(id, "stores to "+cls, n, 1)
+	}
+	// the final flush of the write closer happens while it still holds the
+	// output lock: nothing is written or flushed after a direct Unlock (a
+	// release "before waiting for the network" lets the next sender flush the
+	// same buffer concurrently: bytes go out twice)
+	if wc := c.fn(id, "", "(*lockWriteCloser).Close"); wc != nil {
+		g := wc.Graph()
+		for _, cl := range wc.Calls("sync.Locker.Unlock") {
+			if _, isDefer := g.Parent(cl).(*ast.DeferStmt); isDefer {
+				continue
+			}
+			up, _ := g.Where(cl)
+			bad := ""
+			for _, nd := range g.ReachableNodes(g.After(up), nil) {
+				if wc.ContainsCall(nd, "*.Flush") != nil || wc.ContainsCall(nd, "*.EncodeToken") != nil {
+					bad = "a flush or write at " + c.p.Pos(nd.Pos()) + " runs after the output lock was released"
+				}
+			}
+			c.r.Check(id, wc, "nothing is flushed after the release", "O: in lockWriteCloser.Close the release of the output lock is the last thing that touches the encoder's path (deferred, or after the flush)", cl.Pos(), bad == "", bad)
+		}
 	}
 	for _, name := range []string{"(*lockWriteCloser).Close", "(*lockReadCloser).Close"} {
 		f := c.fn(id, "", name)
@@ -933,4 +962,20 @@ func serveCtxRootedInBackground(c *cx, id string) {
 		}
 	}
 	c.r.Floor(id, "stores to Session.in.ctx", n, 2)
+}
+
+// replyFlagOnlyByDetector (C10.15): responseChecker.wroteResp is written by the
+// detector (responseChecker.EncodeToken) only. handleInputStream reads it to
+// decide whether the automatic reply is due; code there that also writes it
+// (to remember that the automatic reply failed after a local Close, say) turns
+// a tolerated failure into a reason to end Serve.
+func replyFlagOnlyByDetector(c *cx, id string) {
+	n := 0
+	for _, fn := range c.allFns() {
+		for _, w := range fn.FieldWrites("xmpp.responseChecker.wroteResp") {
+			n++
+			c.r.Check(id, fn, "write to responseChecker.wroteResp", "W: only the reply detector sets the flag", w.Stmt.Pos(), fn.Short == "xmpp.(*responseChecker).EncodeToken", "written in "+fn.Short)
+		}
+	}
+	c.r.Floor(id, "writes of the reply flag", n, 1)
 }
